@@ -113,11 +113,12 @@ var All = []*Prop{
 	},
 	{
 		ID:    "C20",
-		Rules: []*core.Rule{rules.GuardTable},
-		Explanation: "Clause decided: 'whether the optimised path for unmodified RegExp objects or the generic protocol path is taken' is unobservable only if every property the protocol path reads from the regexp de-optimises the fast path when redefined. R-GUARDTABLE computes G = the constant names passed to guardedObject.guard() for RegExp.prototype, and R = the constant names read with getStr from the value handed to checkStdRegexp (taint followed into static callees) plus those read by the built-in flags getter, and requires R ⊆ G up to an audited exemption table (lastIndex, constructor, source). It also checks that every mutating own-property method of regexpObject clears `standard` and that guardedObject's three string mutators call check().",
-		Technique:  "writer/reader table agreement: constants of guard(...) vs constant getStr names on a tainted value, method-override presence",
+		Rules: []*core.Rule{rules.GuardTable, rules.Restore},
+		Explanation: "Clause decided: 'whether the optimised path for unmodified RegExp objects or the generic protocol path is taken' is unobservable only if every property the protocol path reads from the regexp de-optimises the fast path when redefined. R-GUARDTABLE computes G = the constant names passed to guardedObject.guard() for RegExp.prototype, and R = the constant names read with getStr from the value handed to checkStdRegexp (taint followed into static callees) plus those read by the built-in flags getter, and requires R ⊆ G up to an audited exemption table (lastIndex, constructor, source). It also checks that every mutating own-property method of regexpObject clears `standard` and that guardedObject's three string mutators call check(). " +
+			"R-RESTORE (match cache of the backtracking engine): the rune temporarily substituted at a start position inside a surrogate pair is restored on every path that leaves the []rune buffer referenced by the per-regexp cache (paths are explored with consistent branching on repeated conditions; a path that sets r.cache = nil is excused).",
+		Technique:  "writer/reader table agreement: constants of guard(...) vs constant getStr names on a tainted value, method-override presence; save/overwrite/restore must-pass-through with condition-consistent path exploration",
 		DesignRef:  "DESIGN.md section 4, C20",
-		NotCovered: "equality of the two regexp engines' match results, UTF-16 index mapping, lastIndex evolution, named groups, the cache of the backtracking wrapper: all value-level",
+		NotCovered: "equality of the two regexp engines' match results, UTF-16 index mapping, lastIndex evolution, named groups, validity of the cached position map: all value-level",
 	},
 	{
 		ID:    "C16",
